@@ -9,6 +9,7 @@ import sys
 VERIF = os.path.dirname(os.path.dirname(os.path.abspath(__file__)))
 GROUPS = {
     "V": [("C01", "C09", "C14"), ("C02", "C10", "C15"), ("C03", "C11", "C18"), ("C04", "C12", "C20"), ("C05", "C07", "C13"), ("C06", "C08", "C19")],
+    "W": [("C01", "C05", "C11"), ("C03", "C08", "C13"), ("C07", "C10", "C19"), ("C02", "C12", "C18"), ("C04", "C09", "C15"), ("C06", "C14", "C20")],
 }
 
 
@@ -30,6 +31,11 @@ def main():
         g = f"{letter}{k}"
         open(f"/tmp/props_{g}.txt", "w").write("\n\n----------------------------------------\n\n".join(text(props[i]) for i in grp))
         s = tmpl.replace("@G@", g).replace("@P1@", grp[0]).replace("@P2@", grp[1]).replace("@P3@", grp[2]).replace("@R@", str(rnd))
+        if len(sys.argv) > 3 and sys.argv[3] == "one":
+            # a short round: one change per property
+            s = s.replace("produce TWO different, independent source changes to the library (six in total; each one a separate small patch against the pristine worktree)",
+                          "produce ONE source change to the library (three in total; each one a separate small patch against the pristine worktree)")
+            s = s.replace("make the six changes", "make the three changes").replace("<property id>-<1|2>", "<property id>-1").replace("summarise the six changes", "summarise the three changes")
         open(f"/tmp/seed_prompt_{g}.txt", "w").write(s)
         print(g, grp)
 
